@@ -26,6 +26,8 @@ def run (j : Json) : R Json := do
     let out := split segs
     let ti := tagInfo segs
     pure (obj [
+      ("nointersect", Json.bool (decide (NoIsect segs))),
+      ("pairs", ofList (fun (x : Nat × Nat) => ofNats [x.1, x.2]) (boxPairs segs)),
       ("edges", ofList (fun e => obj [("p", ofPt e.p), ("q", ofPt e.q), ("parent", ofNat e.parent), ("tags", ofInts e.tags)]) out),
       ("pre", ofList (fun (x : List Int × Option OutEdge) => match x.2 with
           | some e => obj [("p", ofPt e.p), ("q", ofPt e.q), ("tags", ofInts x.1)]
